@@ -581,7 +581,7 @@ pub fn run(tier: &Tier) -> i32 {
     ensure_bin();
     let base = Program {
         // string definitions too: a comment (whatever it contains) after a string must not become part of the data
-        data: vec![b::db(Some("x"), 5), b::dw(Some("y"), 0x1234), DataDef::Str(Some("s".into()), W::B, "AB".into()), DataDef::Str(Some("t".into()), W::W, "c d".into()), b::db(Some("z"), 9)],
+        data: vec![b::db(Some("x"), 5), b::dw(Some("y"), 0x1234), DataDef::Str(Some("s".into()), W::B, "AB".into()), DataDef::Str(Some("t".into()), W::W, "c d".into()), DataDef::Str(Some("u".into()), W::B, "Open 24h 7Fh 0x1F 0b11 10 -> 3 daily".into()), b::db(Some("z"), 9)],
         code: vec![
             b::label("start"),
             b::mov(b::r16("ax"), b::imm(7)),
@@ -592,7 +592,7 @@ pub fn run(tier: &Tier) -> i32 {
             b::mov(b::r16("ax"), b::imm(0)),
             b::label("fin"),
             b::print(PrintKind::Reg),
-            b::print(PrintKind::MemRange(0, 15)),
+            b::print(PrintKind::MemRange(0, 63)),
             b::mov(b::r8("cl"), b::lab8("z")),
             b::print(PrintKind::Reg),
         ],
